@@ -615,7 +615,9 @@ func runAutoOnce(row *autoRow, pacing int, r *rand.Rand, bad bool, rec *autoReco
 			}
 			lastQuery = true
 			nq++
-			switch nq % 4 {
+			switch nq % 5 {
+			case 4:
+				_ = cache.Refresh() // in auto mode: the same "refresh if required" as a query
 			case 0:
 				cache.ListDevices()
 			case 1:
